@@ -945,12 +945,22 @@ func detdiff(args []string) int {
 		if rf == nil {
 			continue
 		}
+		if len(o.Hist) > 0 {
+			// VERIF_HIST=1: canonical history followed by the driver's decision trace
+			rf.History = o.Hist
+		}
 		if first == nil {
 			first = rf
 			continue
 		}
 		if rf.Canon != first.Canon {
-			for i := 0; i < len(rf.History) && i < len(first.History); i++ {
+			start := 0
+			for i, l := range first.History {
+				if l == "--- decision trace ---" {
+					start = i // compare the driver's decisions first: the root cause precedes its visible effect
+				}
+			}
+			for i := start; i < len(rf.History) && i < len(first.History); i++ {
 				if rf.History[i] != first.History[i] {
 					lo := i - 12
 					if lo < 0 {
